@@ -267,6 +267,11 @@ static std::vector<Spec> histCircuits() {
     b.effort = 9; b.seed = 3; b.devs = {{F_maxNbSteps, 8}, {F_shiftMaxNbCells, 14}, {F_reorderingMaxNbCells, 3}};
     v.push_back(a);
     v.push_back(b);
+    // member 805: 40 cells on 10 rows, 20 nets - several density bins, so that the rough legalizer's cost terms (which depend on
+    // the size of the placement area) decide between bins; after a run on a circuit with another area
+    Spec g = med.at(805);
+    g.seed = 3; g.devs = {{F_maxNbSteps, 12}};
+    v.push_back(g);
   }
   return v;
 }
@@ -313,13 +318,13 @@ static uint64_t aloneInPristineProcess(int k, int stage) {
   return h;
 }
 
-// hist instance: aux = sequence of (circuit*6 + stage*2 + cb) items base 32 (digit+1), least significant first
+// hist instance: aux = sequence of (circuit*6 + stage*2 + cb) items base 64 (digit+1), least significant first
 static vf::Verdicts evalHist(const Spec &inst, vf::Ctx &ctx) {
   vf::Verdicts out;
   if (gZygoteReq < 0) startZygote();  // first evaluation of this worker: nothing of the library has run in this process yet
   auto circuits = histCircuits();
   std::vector<int> items;
-  for (int a = inst.aux; a > 0; a /= 32) items.push_back(a % 32 - 1);
+  for (int a = inst.aux; a > 0; a /= 64) items.push_back(a % 64 - 1);
   uint64_t last = 0;
   int k = 0, stage = 0;
   std::vector<Circuit> keepAlive;  // earlier circuits stay allocated, as in a long-lived process
@@ -347,6 +352,104 @@ static vf::Verdicts evalHist(const Spec &inst, vf::Ctx &ctx) {
   return out;
 }
 
+// ---- API histories (pass hist, instances with aux2 == 7) ---------------------------------------------------------
+// A circuit object is driven through a sequence of public operations (setters between stages, placement calls that
+// return or throw, copies, a callback that resizes cells).  Then the same placement stage is run on that object and on a
+// clone rebuilt from nothing but its observable state (every getter).  Placement being a pure function of the circuit and
+// the parameters, the two results must be identical: whatever else the object remembers from its history must not matter.
+static const int N_API_OPS = 16;
+static const char *apiOpName[N_API_OPS] = {"toggleFixed(0)", "widen(1)", "moveX(0)", "orient(1,FS)", "dropLastNet", "addNet", "shortenRow(0)", "placeGlobal", "legalize",
+                                           "placeDetailed", "copyAndAssignBack", "legalize(rejected params)", "placeGlobal(callback throws)", "placeGlobal(callback widens)",
+                                           "polarity(1,SAME)", "toggleObstruction(0)"};
+static Circuit cloneFromGetters(const Circuit &c) {
+  Circuit d(c.nbCells());
+  d.setCellWidth(std::vector<int>(c.cellWidth()));
+  d.setCellHeight(std::vector<int>(c.cellHeight()));
+  d.setCellIsFixed(std::vector<bool>(c.cellIsFixed()));
+  d.setCellIsObstruction(std::vector<bool>(c.cellIsObstruction()));
+  d.setCellRowPolarity(std::vector<CellRowPolarity>(c.cellRowPolarity()));
+  d.setCellOrientation(std::vector<CellOrientation>(c.cellOrientation()));
+  d.setCellX(std::vector<int>(c.cellX()));
+  d.setCellY(std::vector<int>(c.cellY()));
+  d.setNets(std::vector<int>(c.netLimits_), std::vector<int>(c.pinCells_), std::vector<int>(c.pinXOffsets_), std::vector<int>(c.pinYOffsets_),
+            std::vector<float>(c.netWeights_));
+  d.setRows(std::vector<Row>(c.rows()));
+  return d;
+}
+static void applyApiOp(Circuit &c, int op, const ColoquinteParameters &p) {
+  int n = c.nbCells();
+  guarded([&] {
+    switch (op) {
+      case 0: { auto f = c.cellIsFixed(); f[0] = !f[0]; c.setCellIsFixed(f); break; }
+      case 1: { auto w = c.cellWidth(); w[1 % n] += 1; c.setCellWidth(w); break; }
+      case 2: { auto x = c.cellX(); x[0] += 3; c.setCellX(x); break; }
+      case 3: { auto o = c.cellOrientation(); o[1 % n] = CellOrientation::FS; c.setCellOrientation(o); break; }
+      case 4: {
+        if (c.nbNets() == 0) break;
+        int last = c.nbNets() - 1, np = c.netLimits_[last];
+        c.setNets(std::vector<int>(c.netLimits_.begin(), c.netLimits_.end() - 1), std::vector<int>(c.pinCells_.begin(), c.pinCells_.begin() + np),
+                  std::vector<int>(c.pinXOffsets_.begin(), c.pinXOffsets_.begin() + np), std::vector<int>(c.pinYOffsets_.begin(), c.pinYOffsets_.begin() + np),
+                  std::vector<float>(c.netWeights_.begin(), c.netWeights_.end() - 1));
+        break;
+      }
+      case 5: c.addNet({0, n - 1}, {0, 1}, {1, 0}); break;
+      case 6: { auto r = c.rows(); if (!r.empty() && r[0].maxX - r[0].minX > 6) { r[0].maxX -= 1; c.setRows(r); } break; }
+      case 7: c.placeGlobal(p); break;
+      case 8: c.legalize(p); break;
+      case 9: c.placeDetailed(p); break;
+      case 10: { Circuit d = c; Circuit e(1); e = d; c = e; break; }
+      case 11: { ColoquinteParameters q = p; q.legalization.orderingWidth = 7.0; c.legalize(q); break; }
+      case 12: c.placeGlobal(p, PlacementCallback([](PlacementStep) { throw std::runtime_error("callback fault"); })); break;
+      case 13: {
+        bool done = false;
+        c.placeGlobal(p, PlacementCallback([&](PlacementStep st) {
+          if (st != PlacementStep::UpperBound || done) return;
+          done = true;
+          auto w = c.cellWidth();
+          for (int i = 0; i < c.nbCells(); ++i) if (!c.cellIsFixed()[i] && w[i] > 0) w[i] += 1;
+          c.setCellWidth(w);
+        }));
+        break;
+      }
+      case 14: { auto pol = c.cellRowPolarity(); pol[1 % n] = CellRowPolarity::SAME; c.setCellRowPolarity(pol); break; }
+      case 15: { auto ob = c.cellIsObstruction(); ob[0] = !ob[0]; c.setCellIsObstruction(ob); break; }
+    }
+  });
+}
+static vf::Verdicts evalApi(const Spec &inst, vf::Ctx &ctx) {
+  vf::Verdicts out;
+  auto circuits = histCircuits();
+  int code = inst.aux;
+  int k = code % 4; code /= 4;        // base circuit
+  int finalStage = code % 3; code /= 3;
+  const Spec &base = circuits[k == 3 ? 4 : k];
+  ColoquinteParameters p = makeParams(base);
+  Circuit c = build(base);
+  std::string hist;
+  while (code > 0) {
+    int op = code % 32 - 1;
+    code /= 32;
+    applyApiOp(c, op, p);
+    hist += std::string(" ") + apiOpName[op];
+  }
+  Circuit fresh = cloneFromGetters(c);
+  Circuit viaCopy = c;
+  uint64_t a = runStage(c, finalStage, p, false);
+  uint64_t b = runStage(fresh, finalStage, p, false);
+  uint64_t d = runStage(viaCopy, finalStage, p, true);
+  static const char *stageName[3] = {"placeGlobal", "legalize", "placeDetailed"};
+  if (a != b)
+    out.push_back({"result-depends-on-the-history-of-the-object", std::string(stageName[finalStage]) + " after" + hist + " differs from the same call on a circuit rebuilt from the getters | circuit " + std::to_string(k)});
+  if (a != d)
+    out.push_back({"copy-or-callback-changes-result", std::string(stageName[finalStage]) + " after" + hist + " differs on a copy / with a callback | circuit " + std::to_string(k)});
+  ctx.count("states", 2);
+  ctx.count("transitions", 3);
+  ctx.count("traces_validated_against_impl", 1);
+  ctx.count("api_histories");
+  ctx.nontrivial(vf::fnv("api" + std::to_string(inst.aux)));
+  return out;
+}
+
 static vf::Verdicts evalTsan(const Spec &inst, vf::Ctx &ctx) {
   // free-running: any race report halts the worker (halt_on_error) and is attributed to this instance
   int steps = inst.aux2 % 16, model = (inst.aux2 / 16) % 4;
@@ -371,21 +474,36 @@ static void enumerateAll(const std::function<void(const Spec &)> &f) {
     for (int a = 0; a < nItems; ++a) {
       Spec s; s.aux = a + 1; f(s);
       if ((a % 6) / 2 == 0 && a % 2 == 0)
-        for (int b = 0; b < nItems; b += 2) { Spec t; t.aux = (a + 1) + 32 * (b + 1); f(t); }
+        for (int b = 0; b < nItems; b += 2) { Spec t; t.aux = (a + 1) + 64 * (b + 1); f(t); }
     }
     return;
   }
   if (gPass == "hist") {
-    int nItems = 5 * 6;
+    // API histories: every sequence of <= 2 operations (thorough: 3 on a third) x final stage x base circuit
+    for (int k = 0; k < 4; ++k)
+      for (int fs = 0; fs < 3; ++fs) {
+        auto code = [&](std::vector<int> ops) { int c = 0; for (size_t i = ops.size(); i-- > 0;) c = c * 32 + ops[i] + 1; return k + 4 * (fs + 3 * c); };
+        { Spec s; s.aux = code({}); s.aux2 = 7; f(s); }
+        for (int a = 0; a < N_API_OPS; ++a) {
+          { Spec s; s.aux = code({a}); s.aux2 = 7; f(s); }
+          for (int b = 0; b < N_API_OPS; ++b) {
+            if (!gThorough && k == 3 && (a + b) % 2) continue;  // the 24-cell circuit: half of the pairs in quick
+            { Spec s; s.aux = code({a, b}); s.aux2 = 7; f(s); }
+            if (gThorough && k < 2)
+              for (int c3 = 0; c3 < N_API_OPS; ++c3) { if ((a + b + c3) % 3) continue; Spec s; s.aux = code({a, b, c3}); s.aux2 = 7; f(s); }
+          }
+        }
+      }
+    int nItems = 6 * 6;
     for (int a = 0; a < nItems; ++a) {
       Spec s; s.aux = a + 1; f(s);
       for (int b = 0; b < nItems; ++b) {
         if (!gThorough && (a % 2 != b % 2)) continue;
-        Spec t; t.aux = (a + 1) + 32 * (b + 1); f(t);
+        Spec t; t.aux = (a + 1) + 64 * (b + 1); f(t);
         if (gThorough)
           for (int c = 0; c < nItems; c += 1) {
             if ((a + b + c) % 3) continue;
-            Spec u; u.aux = (a + 1) + 32 * (b + 1) + 1024 * (c + 1); f(u);
+            Spec u; u.aux = (a + 1) + 64 * (b + 1) + 4096 * (c + 1); f(u);
           }
       }
     }
@@ -445,7 +563,7 @@ int main(int argc, char **argv) {
     c.rule = "pass memcheck: every single run and every pair starting with a global placement (3 circuits with default and non-default accepted options x 3 stages x callback) executed under "
              "valgrind memcheck; the first use of uninitialised memory or invalid access kills the worker and is attributed to the instance";
   else
-    c.rule = "pass hist: every sequence of length <= 2 (3 on a third of the product in thorough) of independent runs over 5 circuits (3 small; a 24-cell one under two parameter sets with different efforts and window sizes) x {placeGlobal, legalize, placeDetailed} x {callback, none} in one "
+    c.rule = "pass hist: (i) API histories: every sequence of <= 2 (thorough 3) operations over {setters of fixed flags, widths, positions, orientations, polarities, nets, rows; the three placement calls; copy and assign back; a placement call refused for its parameters; a callback that throws; a callback that resizes the cells} on one Circuit object (4 base circuits), then each placement stage on that object, on a clone rebuilt from its getters alone, and on a copy with a callback: identical results required; (ii) every sequence of length <= 2 (3 on a third of the product in thorough) of independent runs over 6 circuits (3 small; a 24-cell one under two parameter sets with different efforts and window sizes; a 40-cell one on 10 rows) x {placeGlobal, legalize, placeDetailed} x {callback, none} in one "
              "process, each on a copy and on the original with the callback toggled; the last run of the sequence is compared with the same run alone in a pristine process (forked from a per-worker zygote that was itself forked before the worker made its first library call, so that no static initialised by earlier runs is inherited)";
   c.bounds = gThorough ? "preemption bound 3 (3 steps) / 2 (6 steps)" : "preemption bound 2";
   c.assumptions = {"scheduling points are the hooked points (begin / matrix built / end of each solve); finer-grained races are left to the ThreadSanitizer pass",
@@ -453,7 +571,12 @@ int main(int argc, char **argv) {
   c.enumerate = enumerateAll;
   c.encode = [](const Spec &s) { return encode(s); };
   c.decode = [](const std::string &s) { return decode(s); };
-  c.eval = [](const Spec &s, vf::Ctx &ctx) { return (gPass == "hist" || gPass == "memcheck") ? evalHist(s, ctx) : (gPass == "tsan" ? evalTsan(s, ctx) : evalSched(s, ctx)); };
+  c.eval = [](const Spec &s, vf::Ctx &ctx) {
+    // the zygote of the reference runs must be forked before this worker makes its first library call of any kind
+    if ((gPass == "hist" || gPass == "memcheck") && gZygoteReq < 0) startZygote();
+    if (gPass == "hist" && s.aux2 == 7) return evalApi(s, ctx);
+    return (gPass == "hist" || gPass == "memcheck") ? evalHist(s, ctx) : (gPass == "tsan" ? evalTsan(s, ctx) : evalSched(s, ctx));
+  };
   c.instanceTimeout = 600;
   // the checks replay by themselves (sched: twice); under a real race a violation need not reproduce, which is itself the finding
   c.replayBeforeReport = false;
